@@ -156,7 +156,7 @@ type c27Split struct {
 	curTime     time.Time    // clock value that scan sees
 	uAdv        int32        // seconds to advance right after the interleaved announcement has read the clock
 	uRet        atomic.Value // chan struct{}: closed when the interleaved announcement has returned
-	uInCS       int32        // the interleaved announcement has read the clock (it holds the group lock)
+	uGid        int64        // goroutine of the interleaved announcement
 	preTimeouts int32
 	clk         *c27Clock
 	paused      chan string
@@ -221,13 +221,13 @@ func (r *c27Split) scanOn() bool {
 	if r.uOutstanding() {
 		// an announcement is waiting for (or has just got) the lock of r.cur; lock probing cannot tell a
 		// reader with a pending writer from a writer
-		if atomic.LoadInt32(&r.uInCS) == 1 {
-			return false // it got the lock, so the scan's read lock was dropped
-		}
 		if _, g := r.readLocked(r.cur); g != nil {
 			return false // already scanning the next group
 		}
-		return true
+		// still scanning iff the announcement is still parked on the group lock (not assuming anything
+		// about where the announcement reads the clock)
+		st := c27GoState(atomic.LoadInt64(&r.uGid))
+		return st == "sync.RWMutex.Lock" || st == "sync.Mutex.Lock"
 	}
 	if r.cur.mu.TryLock() {
 		r.cur.mu.Unlock()
@@ -269,9 +269,6 @@ func (r *c27Split) pre() {
 // interleaved announcement (or an op of the gap).
 func (r *c27Split) post(t time.Time) time.Time {
 	if c27GID() != atomic.LoadInt64(&r.cgid) {
-		if r.uOutstanding() {
-			atomic.StoreInt32(&r.uInCS, 1)
-		}
 		if d := atomic.SwapInt32(&r.uAdv, 0); d > 0 {
 			r.clk.add(int(d))
 		}
@@ -289,6 +286,135 @@ func (r *c27Split) post(t time.Time) time.Time {
 	r.paused <- tok
 	<-r.resume
 	return t
+}
+
+// ---------------------------------------------------------------- two racing announcements
+
+// c27Park parks one goroutine in its k-th clock read (after the value was read).
+type c27Park struct {
+	gid    int64
+	skip   int32
+	atPark chan struct{}
+	resume chan struct{}
+}
+
+func (r *c27Park) pre() {}
+func (r *c27Park) post(t time.Time) time.Time {
+	if c27GID() != atomic.LoadInt64(&r.gid) {
+		return t
+	}
+	if atomic.AddInt32(&r.skip, -1) == -1 {
+		r.atPark <- struct{}{}
+		<-r.resume
+	}
+	return t
+}
+
+// c27GoState returns the wait reason of goroutine gid.
+func c27GoState(gid int64) string {
+	buf := make([]byte, 1<<18)
+	n := runtime.Stack(buf, true)
+	dump := string(buf[:n])
+	hdr := fmt.Sprintf("goroutine %d [", gid)
+	i := strings.Index(dump, hdr)
+	if i < 0 {
+		return ""
+	}
+	rest := dump[i+len(hdr):]
+	j := strings.IndexAny(rest, "],")
+	if j < 0 {
+		return ""
+	}
+	return rest[:j]
+}
+
+// race2: announcement A is parked right after the clock read that stamps its entry; the clock moves on
+// by d; announcement B runs. With the clock read inside the group's lock section B (same torrent)
+// cannot be applied before A. Reports which of the two was applied first.
+func (e *c27Env) race2(op []string) bool {
+	if len(op) != 13 {
+		return false
+	}
+	fa, ok1 := e.upd(append([]string{"op", "upd"}, op[2:7]...))
+	fb, ok2 := e.upd(append([]string{"op", "upd"}, op[7:12]...))
+	d, err := strconv.Atoi(op[12])
+	ha, _ := c27Idx(op[2], "h", c27NH)
+	if !ok1 || !ok2 || err != nil || d < 0 || d > 1000000 {
+		return false
+	}
+	e.s.mu.RLock()
+	_, exists := e.s.peerGroups[c27Hashes[ha]]
+	e.s.mu.RUnlock()
+	r := &c27Park{atPark: make(chan struct{}), resume: make(chan struct{})}
+	if !exists {
+		r.skip = 1 // the first read stamps the new group (under s.mu), the second one the entry
+	}
+	aDone, bDone := make(chan string, 1), make(chan string, 1)
+	reg := make(chan struct{})
+	e.clk.hook.Store(c27HookBox{r})
+	go func() {
+		atomic.StoreInt64(&r.gid, c27GID())
+		close(reg)
+		aDone <- verifh.Protect(fa)
+	}()
+	<-reg
+	parked := false
+	select {
+	case <-r.atPark:
+		parked = true
+	case p := <-aDone: // no clock read reached: nothing to interleave
+		aDone <- p
+	case <-time.After(c27Wait):
+		e.tr.PropFail("deadlock", "race2-announcer-a")
+		panic("c27 harness: race2 stuck")
+	}
+	e.clk.add(d)
+	bgid := make(chan int64, 1)
+	go func() {
+		bgid <- c27GID()
+		bDone <- verifh.Protect(fb)
+	}()
+	gb := <-bgid
+	order := "a-first"
+	deadline := time.Now().Add(c27Wait)
+	for parked {
+		select {
+		case p := <-bDone:
+			bDone <- p
+			if op[2] == op[7] {
+				order = "b-first" // same torrent: B was applied while A still sat on its clock value
+			}
+			parked = false
+			r.resume <- struct{}{}
+			continue
+		default:
+		}
+		if st := c27GoState(gb); st == "sync.RWMutex.Lock" || st == "sync.Mutex.Lock" || st == "sync.RWMutex.RLock" {
+			parked = false
+			r.resume <- struct{}{}
+			continue
+		}
+		runtime.Gosched()
+		if time.Now().After(deadline) {
+			e.tr.PropFail("deadlock", "race2-announcer-b")
+			panic("c27 harness: race2 stuck")
+		}
+	}
+	for _, ch := range []chan string{aDone, bDone} {
+		select {
+		case p := <-ch:
+			if p != "" {
+				e.tr.PropFail("panic", verifh.Str(p))
+			}
+		case <-time.After(c27Wait):
+			e.tr.PropFail("deadlock", "race2")
+			panic("c27 harness: race2 stuck")
+		}
+	}
+	e.clk.hook.Store(c27HookBox{c27NoHook{}})
+	e.tr.Op(op[1:], order)
+	e.tr.Count("race2_"+order, 1)
+	return true
 }
 
 // ---------------------------------------------------------------- executor
@@ -468,13 +594,16 @@ loop:
 					atomic.StoreInt32(&r.uAdv, int32(adv))
 					uDone := make(chan string, 1)
 					uRet := make(chan struct{})
-					atomic.StoreInt32(&r.uInCS, 0)
 					r.uRet.Store(uRet)
+					ugid := make(chan struct{})
 					go func() {
+						atomic.StoreInt64(&r.uGid, c27GID())
+						close(ugid)
 						p := verifh.Protect(f)
 						close(uRet)
 						uDone <- p
 					}()
+					<-ugid
 					deadline := time.Now().Add(2 * time.Second)
 					early, uPanic := false, ""
 				pending:
@@ -587,6 +716,8 @@ func c27Exec(tr *verifh.T, c verifh.Case) {
 			run = func() { e.split(body) }
 		case "scan", "sweep", "ceend":
 			continue
+		case "race2":
+			run = func() { e.race2(op) }
 		default:
 			run = func() { e.simple(op) }
 		}
@@ -609,6 +740,12 @@ func c27Exec(tr *verifh.T, c verifh.Case) {
 func c27Upd(h, p, ip, port int, c bool) []string {
 	return []string{"op", "upd", fmt.Sprintf("h%d", h), fmt.Sprintf("p%d", p), fmt.Sprintf("ip%d", ip),
 		strconv.Itoa(port), verifh.Bool(c)}
+}
+
+// c27Race2: announcements of peers pa and pb (torrents ha, hb), the clock advancing by d in between
+func c27Race2(ha, pa, hb, pb, d int) []string {
+	a, b := c27Upd(ha, pa, 1, 8, false), c27Upd(hb, pb, 2, 9, true)
+	return append(append(append([]string{"op", "race2"}, a[2:]...), b[2:]...), strconv.Itoa(d))
 }
 
 func c27Split1(h int, gap ...[]string) [][]string {
@@ -637,6 +774,7 @@ func c27Alphabet() [][][]string {
 		c27Split1(0, c27Upd(0, 1, 3, 6, true)),
 		c27Split1(0, c27Upd(0, 0, 3, 7, false), []string{"op", "adv", "2"}),
 		c27Split1(0, []string{"op", "adv", "1"}, []string{"op", "get", "h0", "9"}),
+		{c27Upd(0, 0, 1, 1, false), c27Race2(0, 0, 0, 1, 2)},
 	}
 }
 
@@ -669,10 +807,13 @@ func c27Random(r *verifh.Rand, tr *verifh.T) verifh.Case {
 		case k < 72:
 			ops = append(ops, randAdv())
 			tr.Count("random_op_adv", 1)
-		case k < 78:
+		case k < 76:
 			ops = append(ops, []string{"op", "ce"})
 			tr.Count("random_op_ce", 1)
-		case k < 84:
+		case k < 79:
+			ops = append(ops, c27Race2(r.Intn(nh), r.Intn(np), r.Intn(nh), r.Intn(np), r.Intn(ttl+2)))
+			tr.Count("random_op_race2", 1)
+		case k < 85:
 			ops = append(ops, []string{"op", "cg"})
 			tr.Count("random_op_cg", 1)
 		default:
